@@ -9,6 +9,7 @@ PROP = {
             "the reference interpreter encodes the logical definition of each combinator as stated in the property (And = both, Or = either, None = accept / discard, wrappers transparent)",
             "short circuit is part of the logical definition of and_when / or_when: every filter leaf must be evaluated exactly as often as Rust's && / || over the same tree evaluate it, and be shown the fully built event",
             "filter leaves read properties by enumeration, get, typed pull::<T> (Level, i64, u64, bool, Str, String, f64) and through the stock min_filter / MinLevelPathMap; for typed reads the first value for a key wins and a first value that fails the cast yields nothing (integer <-> float casts are not generated)",
+            "event extents of every shape are generated (absent, point, forward / empty / backwards range, Timestamp::MIN / MAX ends); the filter and every destination must see exactly the event's own extent (range vs point, both bounds), else the clock's reading as a point",
             "values are compared by their Display text; value typing is C19's business, ambient stacking is C03's",
         ],
         "lanes": [
